@@ -420,3 +420,161 @@ Arguments paginate {T M}.
 Arguments paginate_cfg {T M}.
 Arguments run_paginated_operation {T M}.
 Arguments run_cloud_io_paginated {T M}.
+
+(* ---------- helpers/cloud.rs: OperationContext and run_with_context ----------
+   `OperationContext { operation_name, start_time, retry_count: u32, metadata: HashMap }`.
+   Keys, values and names are opaque (`K`, `V`); `keq` decides key equality (String ==).  The
+   HashMap is an association list without duplicate keys, newest binding first - only lookups
+   and the set of bindings are meaningful (the correspondence sorts by key).  `start_time` is an
+   opaque token `S` (an Instant): nothing here ever changes it. *)
+Section Context.
+  Variables K V S : Type.
+  Variable keq : K -> K -> bool.
+
+  Record op_context := mk_ctx {
+    ctx_name : K;
+    ctx_start : S;
+    ctx_retry : N;                 (* u32 *)
+    ctx_meta : list (K * V)
+  }.
+
+  (* OperationContext::new(name): `start_time: Instant::now()`, retry_count 0, no metadata *)
+  Definition ctx_new (name : K) (now : S) : op_context := mk_ctx name now 0 [].
+
+  (* HashMap::insert *)
+  Definition meta_insert (k : K) (v : V) (m : list (K * V)) : list (K * V) :=
+    (k, v) :: filter (fun p => negb (keq (fst p) k)) m.
+  Fixpoint meta_get (k : K) (m : list (K * V)) : option V :=
+    match m with
+    | [] => None
+    | (k', v) :: rest => if keq k' k then Some v else meta_get k rest
+    end.
+
+  (* add_metadata(key, value): `self.metadata.insert(key.into(), value.into())` *)
+  Definition ctx_add_metadata (c : op_context) (k : K) (v : V) : op_context :=
+    mk_ctx (ctx_name c) (ctx_start c) (ctx_retry c) (meta_insert k v (ctx_meta c)).
+
+  (* increment_retry(): `self.retry_count += 1` - overflow of the u32 panics in a build with
+     overflow checks (the profile the harness uses); None = that panic *)
+  Definition ctx_increment_retry (c : op_context) : option op_context :=
+    if (ctx_retry c =? u32_max)%N then None
+    else Some (mk_ctx (ctx_name c) (ctx_start c) (ctx_retry c + 1) (ctx_meta c)).
+
+  (* what a closure does with `&mut OperationContext` besides returning *)
+  Inductive ctx_action :=
+  | ActIncrement
+  | ActAdd (k : K) (v : V).
+
+  (* runs the actions in order; None = panicked on the way *)
+  Fixpoint ctx_apply (c : op_context) (acts : list ctx_action) : option op_context :=
+    match acts with
+    | [] => Some c
+    | ActIncrement :: rest =>
+        match ctx_increment_retry c with Some c' => ctx_apply c' rest | None => None end
+    | ActAdd k v :: rest => ctx_apply (ctx_add_metadata c k v) rest
+    end.
+
+  (* run_with_context(context, operation): `let result = operation(&mut context)?;
+     Ok((result, context))` - one call; on Ok the caller gets the value and the context as the
+     closure left it; on Err the closure's error (the context is dropped).
+     `op` = what the closure does given the context: None = it panicked. *)
+  Definition run_with_context {X M} (c : op_context)
+             (op : op_context -> option (res X M * op_context)) : outcome (X * op_context) M :=
+    match op c with
+    | None => Panic
+    | Some (ROk v, c') => Done (ROk (v, c'))
+    | Some (RErr k m, _) => Done (RErr k m)
+    end.
+
+  (* the closure used by the correspondence: apply the actions, then answer `r` *)
+  Definition scripted_ctx_op {X M} (acts : list ctx_action) (r : res X M) (c : op_context)
+    : option (res X M * op_context) :=
+    match ctx_apply c acts with Some c' => Some (r, c') | None => None end.
+End Context.
+
+Arguments mk_ctx {K V S}.
+Arguments ctx_name {K V S}.
+Arguments ctx_start {K V S}.
+Arguments ctx_retry {K V S}.
+Arguments ctx_meta {K V S}.
+Arguments ctx_new {K V S}.
+Arguments meta_insert {K V}.
+Arguments meta_get {K V}.
+Arguments ctx_add_metadata {K V S}.
+Arguments ctx_increment_retry {K V S}.
+Arguments ActIncrement {K V}.
+Arguments ActAdd {K V}.
+Arguments ctx_apply {K V S}.
+Arguments run_with_context {K V S X M}.
+Arguments scripted_ctx_op {K V S} keq {X M}.
+
+(* ---------- io/cloud/utils.rs: ConnectionPool<T> ----------
+   `connections: Vec<T>` is a stack: the head of the list is the LAST element of the Vec. *)
+Section Pool.
+  Variables T M : Type.
+
+  Record pool := mk_pool { pool_conns : list T; pool_max : N }.
+
+  Definition isize_max : N := 9223372036854775807.
+
+  (* ConnectionPool::new(max_size): `Vec::with_capacity(max_size)` panics with "capacity
+     overflow" when max_size * size_of::<T>() exceeds isize::MAX (library contract; below that
+     the allocation itself may fail, which aborts the process - not modelled, not exercised).
+     `elem_size` = size_of::<T>().  None = that panic. *)
+  Definition pool_new (elem_size max_size : N) : option pool :=
+    if (isize_max <? elem_size * max_size)%N then None else Some (mk_pool [] max_size).
+
+  (* acquire(create): `self.connections.pop().map_or_else(create, |conn| Ok(conn))`.
+     Returns the result, the pool afterwards, and whether `create` was called. *)
+  Definition pool_acquire (p : pool) (create : res T M) : res T M * pool * bool :=
+    match pool_conns p with
+    | x :: rest => (ROk x, mk_pool rest (pool_max p), false)
+    | [] => (create, p, true)
+    end.
+
+  (* release(connection): pushed if `len < max_size`, dropped otherwise *)
+  Definition pool_release (p : pool) (x : T) : pool :=
+    if (N.of_nat (length (pool_conns p)) <? pool_max p)%N
+    then mk_pool (x :: pool_conns p) (pool_max p) else p.
+
+  Definition pool_size (p : pool) : nat := length (pool_conns p).
+
+  (* a client's use of one pool *)
+  Inductive pool_op :=
+  | PAcquire (create : res T M)
+  | PRelease (x : T)
+  | PSize.
+
+  (* what each operation showed the client *)
+  Inductive pool_obs :=
+  | OAcquired (r : res T M) (created : bool)
+  | OReleased
+  | OSize (n : nat).
+
+  Fixpoint pool_run (p : pool) (ops : list pool_op) : list pool_obs * pool :=
+    match ops with
+    | [] => ([], p)
+    | PAcquire create :: rest =>
+        let '(r, p', created) := pool_acquire p create in
+        let '(obs, pf) := pool_run p' rest in (OAcquired r created :: obs, pf)
+    | PRelease x :: rest =>
+        let '(obs, pf) := pool_run (pool_release p x) rest in (OReleased :: obs, pf)
+    | PSize :: rest =>
+        let '(obs, pf) := pool_run p rest in (OSize (pool_size p) :: obs, pf)
+    end.
+End Pool.
+
+Arguments mk_pool {T}.
+Arguments pool_conns {T}.
+Arguments pool_max {T}.
+Arguments pool_new {T}.
+Arguments pool_acquire {T M}.
+Arguments pool_release {T}.
+Arguments pool_size {T}.
+Arguments PAcquire {T M}.
+Arguments PRelease {T M}.
+Arguments PSize {T M}.
+Arguments OAcquired {T M}.
+Arguments OReleased {T M}.
+Arguments OSize {T M}.
+Arguments pool_run {T M}.
